@@ -77,6 +77,7 @@ type nilEngine struct {
 	flagImpl map[*types.Var][]string     // bool field -> relative paths (from the struct value) that are non-nil when the flag is true
 	viols    map[string]nilViol
 	exempt   map[string]nilViol
+	held     map[string]nilViol
 	uses     int
 }
 
@@ -93,7 +94,7 @@ type nilFn struct {
 
 func nilRules(c *Ctx) {
 	e := &nilEngine{c: c, reqs: map[*core.FuncInfo]map[string]nilReq{}, ensures: map[*core.FuncInfo][]string{},
-		flagImpl: map[*types.Var][]string{}, viols: map[string]nilViol{}, exempt: map[string]nilViol{}}
+		flagImpl: map[*types.Var][]string{}, viols: map[string]nilViol{}, exempt: map[string]nilViol{}, held: map[string]nilViol{}}
 	e.computeFlagImpl()
 	funcs := c.P.SortedFuncs()
 	// fixpoint over summaries
@@ -138,6 +139,18 @@ func nilRules(c *Ctx) {
 	for _, k := range ekeys {
 		v := e.exempt[k]
 		c.S.Exempt(nilProp(c, v.fn), "NIL-DEREF", k, c.P.Pos(v.pos), v.what)
+	}
+	hkeys := make([]string, 0, len(e.held))
+	for k := range e.held {
+		hkeys = append(hkeys, k)
+	}
+	sort.Strings(hkeys)
+	for _, k := range hkeys {
+		if _, bad := e.viols[k]; bad {
+			continue
+		}
+		v := e.held[k]
+		c.S.Hold(nilProp(c, v.fn), "NIL-DEREF", k, c.P.Pos(v.pos), v.what)
 	}
 	// one holding obligation per analysed function and property, with the number of guarded uses
 	perProp := map[string]int{}
@@ -459,14 +472,11 @@ func (f *nilFn) use(e ast.Expr, st nstate, forStore bool, what string, pos token
 	}
 	f.e.uses++
 	k := f.key(e)
-	if k != "" && st[k] {
-		return
-	}
-	if kind == "index" {
-		// a fact may exist under the syntactic form too
-		if st["X"+exprStr(e)] {
-			return
+	if k != "" && st[k] || kind == "index" && st["X"+exprStr(e)] {
+		if f.collect && kind != "param" {
+			f.e.held[f.fi.QName()+"/"+exprStr(e)] = nilViol{fn: f.fi, pos: pos, what: "tested non-nil on every path reaching its " + what}
 		}
+		return
 	}
 	f.unguarded(e, k, kind, what, pos, forStore)
 }
